@@ -477,8 +477,18 @@ pub fn gen_idl(t: &mut Tape, o: &GenOpts) -> Idl {
     }
     for _ in 0..nm {
         let n = distinct(METHOD_ORDINARY[t.pick(METHOD_ORDINARY.len())].to_string(), &mut used);
-        let i = gen_fields(t, o, o.max_depth, &type_names, &[]);
-        let out = gen_fields(t, o, o.max_depth, &type_names, &[]);
+        let mut i = gen_fields(t, o, o.max_depth, &type_names, &[]);
+        let mut out = gen_fields(t, o, o.max_depth, &type_names, &[]);
+        // every so often a method whose inputs (or outputs) are all optional
+        for f in [&mut i, &mut out] {
+            if t.chance(1, 5) {
+                for (_, ty) in f.iter_mut() {
+                    if !matches!(ty, Ty::Opt(_)) {
+                        *ty = Ty::Opt(Box::new(ty.clone()));
+                    }
+                }
+            }
+        }
         members.push(Member { name: n, docs: vec![], def: Def::Method(i, out) });
     }
     for _ in 0..ne {
